@@ -15,6 +15,13 @@ type Frame struct {
 	retTo     ssa.Value
 	visits    map[int]int // block index -> times entered (loop fuel)
 	forks     map[ssa.Instruction]int
+	defers    []deferred // calls registered by defer statements, run (last first) at RunDefers
+}
+
+type deferred struct {
+	fn       *ssa.Function
+	args     []Value
+	bindings []Value
 }
 
 const (
